@@ -10,6 +10,9 @@ import re
 import struct
 
 
+SKIP_EXCLUDED = False   # C05 compares 'modulo fields the user excluded'
+
+
 class Inst:
     __slots__ = ('cls', 'fields', 'set_fields')
 
@@ -157,6 +160,8 @@ def deep_typed_eq(exp, got, path='$'):
         return True, ''
     if hasattr(te, '__pane_info__'):
         for f in te.__pane_info__.fields:
+            if SKIP_EXCLUDED and f.exclude:
+                continue
             ok, why = deep_typed_eq(getattr(exp, f.name, None), getattr(got, f.name, None), f"{path}.{f.name}")
             if not ok:
                 return ok, why
